@@ -16,6 +16,8 @@ CHECKS = {
             "Soundness and completeness of the stacking list against an O(n^2) evaluation of centroid distance, inter-normal angle and offset angle; placements sweep each quantity across its threshold."),
     "C05": ("metamorphic twins through the real annotator, outputs compared modulo renaming, margins measured", "4.C05",
             "Each case and its presentation twin (rigid motion, atom order, order-preserving relabelling, PDB vs mmCIF text of the same table) run through extract_secondary_structure; lists and 2D texts must be equal; pairs with a decision quantity within 1e-6 of a threshold in either member are excluded by measurement."),
+    "C06": ("contracts on the Mapping2D3D outputs + independent numbering/canonical-conflict/row decoder model", "4.C06",
+            "For corpus structures x (own annotation | random hostile pair lists) x gap detection, the BPSEQ, per-strand text, all-dot-brackets and extended rows are decoded and compared with an independent model of numbering, canonical filtering, conflicts and class orientation."),
     "C07": ("contract on BpSeq.elements + independent decomposition reference model", "4.C07",
             "Every observed decomposition is compared with maximal stacked runs, hairpin pairs, loop closure and an interior-coverage count per unpaired nucleotide; exhaustive small scope + random."),
     "C11": ("contracts on find_pairs/find_stackings + frozen Saenger/Zirbel tables + re-read CSV/JSON", "4.C11",
@@ -44,6 +46,7 @@ LEVEL_NOTE = {
     "C03": "frozen donor/acceptor/edge tables are the specification; three-atom base normal; one_letter_name trusted",
     "C04": "offset-angle direction reading documented in DESIGN.md 4.C04 (sound: undirected, complete: directed)",
     "C05": "margins by the dense evaluator; T4 only for tables inside PDB limits with non-blank chain ids",
+    "C06": "is_nucleotide trusted; canonical rule and class orientation convention documented in DESIGN.md 4.C06",
     "C07": "interior convention documented in DESIGN.md 4.C07; slices compared with the text elements itself used",
     "C11": "frozen Saenger table checked reverse-symmetric at start-up; Zirbel classes frozen",
     "C12": "fresh-object model rebuilt from the text at creation; all_dot_brackets compared as a set",
